@@ -37,5 +37,16 @@ PROPS = {
                         "CacheAlignedL1L2 (unsafe aligned allocation) is modelled as a Vec<u128>-like sequence",
                         "slice lengths <= usize::MAX/64 - 8 words (allocation limit)"],
     },
+    "C31": {
+        "level": "proof",
+        "explanation": "Kani/CBMC executes the real words_to_bytes / bytes_to_words / bytes_to_words_vec / try_bytes_to_words "
+                       "(through bytemuck::cast_slice, whose body is in the verified cone) on symbolic byte buffers sliced at a symbolic "
+                       "offset 0..8 of an 8-aligned buffer object, so the harness quantifies over every "
+                       "alignment, every length and every content; panics are failed checks. The harness arrays are short (<= 4 words) "
+                       "because the casts are length-generic. 'Rebuilt indexes answer identically' follows because JsonIndex::from_parts / "
+                       "BalancedParens::from_words depend only on the word contents (contracts of C04/C07).",
+        "trusted_base": COMMON_TRUST + ["CBMC's pointer model: the byte buffer object is at least 8-aligned, so slice offsets 0..8 enumerate all alignments (checked by the aligned/misaligned harness pair)"],
+        "assumptions": ["word-vector length <= 4 in the harness arrays (alignment and length arithmetic: all cases)"],
+    },
 }
-FIX_COMMITS = []
+FIX_COMMITS = ["2cec8d3"]
